@@ -147,6 +147,7 @@ def ByLabels.nbMissing (r : ByLabels) : Int := (r.nLabels : Int) - ((r.rows.map 
 
 inductive ReadOp
   | bool | len | get (k : Nat) | contains (k : Nat)
+  | view                                          -- table / plot representation, rst formatting, fingerprint, pickle, copy
   | countsPinned (first : Nat) (all : List Nat)   -- `classification_counts` with `classify[status]`
   | counts (first : Nat) (all : List Nat)         -- repaired: `classify.get(status, [])`
   deriving Repr
@@ -168,6 +169,7 @@ def applyRead (c : Classify) : ReadOp → Classify
   | .len => c
   | .get _ => c
   | .contains _ => c
+  | .view => c
   | .countsPinned f all => (countsPinned c (f :: all.filter (· ≠ f))).1
   | .counts _ _ => c
 
